@@ -319,7 +319,8 @@ def _run_group(g, r, sdir, log):
     if g.object_bits:
         base += ['--object-bits', str(g.object_bits)]
     base += g.cbmc
-    chk = base + ['--trace']
+    chk = list(base)      # first pass without traces: the vacuity canaries are expected to fail and their
+                          # traces are useless (and can run to gigabytes); real failures are re-run with --trace
     if g.solver == 'cvc5':
         chk += ['--cvc5']
     elif g.solver == 'z3':
@@ -344,7 +345,9 @@ def _run_group(g, r, sdir, log):
                     shard_args.append(a)
     results = []
 
-    text_ui = (g.kind == 'B')      # long concrete executions: JSON traces of failures run to gigabytes
+    text_ui = True     # first pass always in text UI: --json-ui prints a trace for every failed property, also for the
+                       # vacuity canaries (which are expected to fail), and those traces can run to gigabytes
+    want_trace = (g.kind != 'B')
 
     def one(extra):
         w = SOLVER_SLOTS.acquire(g.weight)
@@ -360,7 +363,9 @@ def _run_group(g, r, sdir, log):
             for ln in out.decode('utf-8', 'replace').splitlines():
                 m = re.match(r'^\[([^\]\s]+)\] (.*): (SUCCESS|FAILURE|UNKNOWN|ERROR)\s*$', ln)
                 if m:
-                    res.append({'property': m.group(1), 'description': m.group(2), 'status': m.group(3)})
+                    res.append({'property': m.group(1), 'description': re.sub(r'^(file \S+ )?line \d+ ', '', m.group(2)), 'status': m.group(3)})
+                if re.search(r'ignoring (forall|exists)', ln):
+                    raise Infra("quantifier ignored by back end: " + ln[:120])
             if not res:
                 raise Infra("no result section in cbmc output")
             return res, dt
@@ -388,6 +393,31 @@ def _run_group(g, r, sdir, log):
             for res, dt in ex.map(one, shard_args):
                 results += res
                 r.solver_s += dt
+    # second pass: traces (witness inputs) for real failures only
+    real_failed = [p.get('property') for p in results
+                   if p.get('status') == 'FAILURE' and 'VF-CANARY' not in p.get('description', '')]
+    if real_failed and want_trace:
+        targs = ['--trace']
+        for n in real_failed[:4]:
+            targs += ['--property', n]
+        try:
+            w = SOLVER_SLOTS.acquire(g.weight)
+            try:
+                rc, out, dt = sh(chk + targs, sdir, g.timeout, log)
+            finally:
+                SOLVER_SLOTS.release(w)
+            r.solver_s += dt
+            traced = {}
+            for x in _parse_cbmc_json(out):
+                if isinstance(x, dict) and 'result' in x:
+                    for p in x['result']:
+                        if p.get('status') == 'FAILURE' and p.get('trace'):
+                            traced[p.get('property')] = p['trace']
+            for p in results:
+                if p.get('property') in traced:
+                    p['trace'] = traced[p.get('property')]
+        except Infra:
+            pass      # the verdicts stand; the replay file then carries no inputs
     bad = []
     end_ok, n_end, abort_ok = True, 0, False
     for p in results:
@@ -417,7 +447,9 @@ def _run_group(g, r, sdir, log):
                              'location': p.get('sourceLocation', {})})
         elif st != 'SUCCESS':
             bad.append(str(p.get('property')) + ':' + str(st))
-    if bad:
+    # a FAILURE verdict comes with a counterexample and stands on its own; obligations left
+    # without verdict matter only when nothing failed (then the group is undecided)
+    if bad and not r.failed:
         raise Infra("obligations without verdict (solver unknown/error): " + ', '.join(bad[:5]))
     names = [o[0] for o in r.obligations]
     if len(names) < g.expect_min:
